@@ -308,14 +308,15 @@ def check(tier: str) -> Result:
     from . import shape_rules
     n_shape = shape_rules.obs_shape_obligations(res, tree, "C01.R8")
     # ---------------------------------------------------------------- R2 (shared with C03)
-    from . import c03
-    r3 = c03.check(tier)
-    for o in r3.obligations:
-        if o.rule == "C03.R6":
-            res.add("C01.R2", o.site, o.func, o.construct, o.ok, o.detail)
+    from .common import borrow as _borrow
+    _borrow(res, "c03", {"C03.R6": "C01.R2"})
     # ---------------------------------------------------------------- R5
     n_axis = axis_rules.add_obligations(res, tree, "C01.R5", scope="spec")
     n_axis += axis_rules.add_obligations(res, tree, "C01.R5b", scope="observed")
+    # ---- R3b: the emitted step counter stays inside its spec only if the episode really ends at time_limit: the
+    # counter / limit-test premises decided by C11 are necessary for `step_count <= time_limit` on the terminal observation
+    from .common import borrow
+    n_c11 = borrow(res, "c11", {"C11.R2": "C01.R3b", "C11.R3": "C01.R3b", "C11.R4": "C01.R3b"})
     res.analysed = {"environments": len(analyses(tree)), "nested_spec_nodes": n_specs, "observation_leaves": n_leaves,
                     "literal_leaves_compared": n_lit, "sampled_leaves_compared": n_samp, "axis_bound_sites": n_axis, "dtype_categories_compared": n_dt, "leaf_shapes_compared": n_shape}
     if n_specs < 31:
